@@ -122,11 +122,19 @@ def run(ctx: Context) -> None:
             for test, pol in guards_of(r):
                 for atom, p in conj_atoms(test, pol):
                     atoms.add((norm(atom), p))
-            guard_ok = ("stream_id>last_stream_id", True) in atoms or ("last_stream_id<stream_id", True) in atoms
-            prov_ok = False
-            if guard_ok:
-                for alt in ctx.prov.expand(ast.Name(id="last_stream_id", ctx=ast.Load()), f, r):
-                    if norm(alt) == "self._connection_terminated.last_stream_id":
+            # some guard is `stream_id > X` (either operand order) where X - directly or through local temporaries - is the
+            # last_stream_id of the stored GOAWAY
+            guard_ok = prov_ok = False
+            for test, pol in guards_of(r):
+                for atom, p in conj_atoms(test, pol):
+                    if not (p and isinstance(atom, ast.Compare) and len(atom.ops) == 1 and isinstance(atom.ops[0], (ast.Gt, ast.Lt))):
+                        continue
+                    big, small = (atom.left, atom.comparators[0]) if isinstance(atom.ops[0], ast.Gt) else (atom.comparators[0], atom.left)
+                    if norm(big) != "stream_id":
+                        continue
+                    guard_ok = True
+                    alts = [norm(a) for a in ctx.prov.expand(small, f, r, pure=True)] or [norm(small)]
+                    if alts and all(a == "self._connection_terminated.last_stream_id" for a in alts):
                         prov_ok = True
             rep.ob("C14.R2", fkey(tree, f, "raiseCNA-after-send"), guard_ok and prov_ok, where(f, r),
                    f"request data may already be on the wire here ({why}); the raise is "
